@@ -218,12 +218,38 @@ func runC05Sync(c *core.Ctx) *core.Violation {
 	return nil
 }
 
+// exactRDB builds an RDB of exactly size bytes (one padding string, plain encodings): sizes that are multiples of the
+// tool's 8 MiB file-writer buffer are a boundary of their own.
+func exactRDB(size int) ([]byte, []rc.Record) {
+	mk := func(pad int) ([]byte, []rc.Record) {
+		v := make([]byte, pad)
+		for i := range v {
+			v[i] = byte('a' + i%26)
+		}
+		items := []rc.Item{{Kind: "selectdb", DB: 0},
+			{Kind: "key", Key: []byte("padding:key"), Val: &rc.Value{Kind: rc.KString, Str: v}, Type: rc.TString}}
+		return rc.WriteRDB(9, items, plainChooser{}, true)
+	}
+	f, _ := mk(size - 100)
+	return mk(size - 100 + (size - len(f)))
+}
+
 func runC05Dump(c *core.Ctx) *core.Violation {
 	t := c.T
 	c.Sub = "dump"
 	env.DefaultOptions(conf.TypeDump)
 	lc := env.CaptureLog("info", 1<<20)
 	rdb, recs := handoffRDB(c)
+	exact := 0
+	if t.Choose(25) == 24 {
+		// the RDB is a whole number of 8 MiB writer buffers, minus / plus one byte now and then
+		exact = (1+t.Choose(2))*(8<<20) + []int{0, 0, 0, -1, 1}[t.Choose(5)]
+		rdb, recs = exactRDB(exact)
+		if len(rdb) != exact {
+			return core.Violate("harness-size", "", "exactRDB(%d) produced %d bytes", exact, len(rdb))
+		}
+		c.Probe("rdb_multiple_of_writer_buffer")
+	}
 	trail := []byte{}
 	if t.Choose(2) == 1 {
 		_, st := GenStream(t, StreamOpts{MaxCmds: 5, DBs: 2, StartDB: -1})
@@ -236,6 +262,9 @@ func runC05Dump(c *core.Ctx) *core.Violation {
 	conf.Options.SourceRdbParallel = 1
 	pre, mid := t.Choose(5), t.Choose(4)
 	netMode := t.Choose(3)
+	if exact != 0 && t.Choose(2) == 0 {
+		netMode = 0 // delivered in large bursts
+	}
 	c.Sample = map[string]interface{}{"sub": "dump", "rdb_len": len(rdb), "keys": len(recs), "trailing_bytes": len(trail), "newlines": pre + mid, "net_mode": netMode}
 	cfg := simrt.Config{MaxSteps: 3000000, MaxSimTime: time.Hour, Trace: c.Trace}
 	var proc *simrt.Proc
@@ -318,7 +347,7 @@ func init() {
 			"that bytes after the RDB 'stay unread' in dump mode is not observable through the public API and is not judged",
 		},
 		RealVsStub: "real: dbSync.sendPSyncCmd/runIncrementalSync, utils.SendPSyncContinue/waitRdbDump/Iocopy/OpenSyncConn, run.CmdDump, pipe, bufio, pkg/rdb loader; simulated: TCP with heavy segmentation, master/target models, clock, scheduling; dump output is a real file",
-		ProbeNames: []string{"rdb_larger_than_copy_buffer", "keepalive_newlines", "commands_in_same_write_as_rdb", "dump_trailing_bytes", "reconnect_after_handoff"},
+		ProbeNames: []string{"rdb_larger_than_copy_buffer", "keepalive_newlines", "commands_in_same_write_as_rdb", "dump_trailing_bytes", "reconnect_after_handoff", "rdb_multiple_of_writer_buffer"},
 		FaultNames: []string{"segment_split", "latency", "short_read", "source_link_reset"},
 	})
 }
